@@ -11,6 +11,7 @@ import (
 	"hash/fnv"
 	"os"
 	"path/filepath"
+	"runtime"
 	"runtime/debug"
 	"sort"
 	"strconv"
@@ -600,17 +601,48 @@ func Shard() (int, int) {
 	return 0, 1
 }
 
+// overloaded tells whether the 1-minute load average exceeds the number of CPUs.
+func overloaded() bool {
+	b, err := os.ReadFile("/proc/loadavg")
+	if err != nil {
+		return false
+	}
+	var l1 float64
+	if _, err := fmt.Sscanf(string(b), "%f", &l1); err != nil {
+		return false
+	}
+	return l1 > float64(runtime.NumCPU())
+}
+
 // Guard runs fn (one case) under a watchdog: if it has not returned after limit, the case is saved as a
 // replay file with key "hang:<label>", a "hang" result is emitted and the process exits with code 3.
 // The driver re-runs that replay file alone and reports a violation only if it hangs again (DESIGN.md §2.5).
 func (s *Session) Guard(test, label string, c any, limit time.Duration, fn func()) {
 	done := make(chan struct{})
+	if Thorough() {
+		limit *= 2 // 16 shards and long cases share the machine
+	}
 	go func() {
 		t := time.NewTimer(limit)
 		defer t.Stop()
 		select {
 		case <-done:
+			return
 		case <-t.C:
+		}
+		// The limit is wall time. If the machine is oversubscribed the case may merely be starved: grant one
+		// extension of twice the limit before calling it a hang (a real hang is still caught, just later, and is
+		// re-confirmed by the driver on an otherwise idle process anyway).
+		if overloaded() {
+			t2 := time.NewTimer(2 * limit)
+			defer t2.Stop()
+			select {
+			case <-done:
+				return
+			case <-t2.C:
+			}
+		}
+		{
 			f := &Failure{Key: "hang:" + label, Msg: fmt.Sprintf("case did not finish within %v", limit)}
 			if s.IsKnown(f.Key) {
 				s.emit(resultLine{Type: "info", Msg: "known hang " + f.Key})
